@@ -565,3 +565,147 @@ contract(f"{TRUNC}::TruncationTransformer.transform", "C14,C16,C12", cases=["fir
          frame=lambda A: [A.self, A.X],
          notes=["unequal-length panel; with `upper` the requested range must lie inside the shortest series (otherwise pandas raises "
                 "IndexError -- not part of the contract's domain)"])
+
+
+# ----------------------------------------------------------------------------- tabularisation / column concatenation (3-d array input)
+RED = "sktime/transformations/panel/reduce.py"
+PCOMP = "sktime/transformations/panel/compose.py"
+
+
+def _tab_inputs(module, clsname):
+    def inputs(B, case):
+        I = B.I
+        ok, cls = I.mod_global(I.src.module(module), clsname)
+        obj = SObj(cls)
+        obj.attrs.update(_is_fitted=True)
+        return {"self": obj, "X": _panel3(B), "y": None}
+    return inputs
+
+
+def _ctt(A, table):
+    """cell (i, c * T + t) of the table is X[i, c, t]: column-then-time order, one row per instance"""
+    X = A.X
+    n, C, T = X.shape
+    if not isinstance(table, SArr) or table.ndim != 2:
+        return False
+    ctx = _cur().ctx
+    i, c, t = ctx.fresh_int("i"), ctx.fresh_int("c"), ctx.fresh_int("t")
+    ctx.assume(And(i >= 0, i < Z(n), c >= 0, c < Z(C), t >= 0, t < Z(T)))
+    return And(Eq(table.shape[0], n), Eq(table.shape[1], ops.simp(Z(C) * Z(T))), Eq(table.fn(i, ops.simp(c * Z(T) + t)), X.fn(i, c, t)))
+
+
+contract(f"{RED}::Tabularizer.transform", "C14,C16,C12", cases=["-"], inputs=_tab_inputs("sktime.transformations.panel.reduce", "Tabularizer"),
+         ensures=[("table-in-column-then-time-order-one-row-per-instance", lambda A, r: _ctt(A, r))], frame=lambda A: [A.self, A.X],
+         notes=["3-d array input (the nested-DataFrame input goes through from_nested_to_2d_array: pandas, bounded tier)"])
+
+contract(f"{PCOMP}::ColumnConcatenator.transform", "C14,C16,C12", cases=["-"],
+         inputs=_tab_inputs("sktime.transformations.panel.compose", "ColumnConcatenator"),
+         ensures=[("one-nested-column-holding-the-columns-one-after-the-other-in-time",
+                   lambda A, r: isinstance(r, Opaque) and r.prov is not None and r.prov[0] == "nested" and _ctt(A, r.prov[1]))],
+         frame=lambda A: [A.self, A.X],
+         notes=["3-d array input; from_2d_array_to_nested (row i -> one series cell) is an assumed contract"])
+
+
+# ----------------------------------------------------------------------------- summary features of the fitted random intervals
+EXT = "sktime/transformations/panel/summarize/_extract.py"
+
+
+def _rife_inputs(B, case):
+    I = B.I
+    nf, nq = (int(x) for x in case.split("|")[0].split("x"))
+    ok, cls = I.mod_global(I.src.module("sktime.transformations.panel.summarize._extract"), "RandomIntervalFeatureExtractor")
+    obj = SObj(cls)
+    X = _panel3(B)
+    n, T = X.shape[0], X.shape[2]
+    feats, outs = [], {}
+    for f in range(nf):
+        fn = B.abstract(f"feature{f}")
+        fn.attrs["__name__"] = f"feature{f}"
+        feats.append(fn)
+    ivs = []
+    for q in range(nq):
+        a, b = B.int(f"start{q}", 0), B.int(f"end{q}", 0)
+        B.assume(And(a < b, b <= Z(T)))
+        ivs.append(SArr((2,), (lambda a_, b_: (lambda i: If(Eq(i, 0), a_, b_)))(a, b), "int", "ndarray"))
+    calls = []
+
+    noaxis = case.endswith("|noaxis")
+
+    def mk(fi):
+        def call(I2, o, ev):
+            if noaxis and "axis" in ev.kwargs:
+                # a plain python feature function: rejects the keyword, the transformer falls back to np.apply_along_axis
+                from pyvc.ctx import SymRaise
+                from pyvc.values import ExcVal, ExtClass
+                raise SymRaise(ExcVal(ExtClass("builtins.TypeError"), (f"feature{fi}() got an unexpected keyword argument 'axis'",)))
+            k = len([c for c in calls if c[0] == fi])
+            R = outs.setdefault((fi, k), B.arr(f"R_{fi}_{k}", dtype="real", shape=[n, 1]))
+            calls.append((fi, k, ev))
+            return R
+        return call
+    for fi, fn in enumerate(feats):
+        fn.results = {"__call__": mk(fi)}
+    obj.attrs.update(_is_fitted=True, features=SList(feats, "list"), intervals_=SList(ivs, "list"), input_shape_=SList([n, 1, T], "tuple"),
+                     n_intervals=nq, random_state=B.opaque("random_state"))
+    obj.ghost = dict(X=X, feats=feats, ivs=ivs, outs=outs, calls=calls, nf=nf, nq=nq, noaxis=noaxis)
+    return {"self": obj, "X": X, "y": None}
+
+
+def _rife_fallback_post(A, r):
+    """feature functions without an `axis` keyword: np.apply_along_axis(feature, axis=2, window) -- on the WINDOW, not on the whole
+    series -- column per (feature, interval) as before"""
+    from contracts.C07_evaluate import trace
+    g = A.self.ghost
+    X = g["X"]
+    n = X.shape[0]
+    nf, nq = g["nf"], g["nq"]
+    evs = [e for e in trace() if e.method == "np.apply_along_axis"]
+    if len(evs) != nf * nq or not isinstance(r, SFrame):
+        return False
+    conds = [Eq(r.index.len, n), Eq(r.values.shape[1], nf * nq)]
+    for pos, ev in enumerate(evs):
+        fi, k = pos // nq, pos % nq
+        f, axis, win = ev.args
+        a, b = g["ivs"][k].fn(0), g["ivs"][k].fn(1)
+        if f is not g["feats"][fi] or axis != 2:
+            return False
+        ln = ops.simp(Z(b) - Z(a))
+        conds.append(And(Eq(win.shape[0], n), Eq(win.shape[1], 1), Eq(win.shape[2], ln),
+                         ForAll(lambda i: ForAll(lambda t: Eq(win.fn(i, 0, t), X.fn(i, 0, ops.simp(Z(a) + Z(t)))), 0, ln, "t"), 0, n, "i"),
+                         ForAll(lambda i: Eq(r.values.fn(i, pos), ev.result.fn(i, 0)), 0, n, "i")))
+    return And(*conds)
+
+
+def _rife_post(A, r):
+    """column f * n_intervals + q holds feature f of the window [start_q, end_q) of every instance, computed by ONE call on that window"""
+    g = A.self.ghost
+    X = g["X"]
+    n = X.shape[0]
+    nf, nq = g["nf"], g["nq"]
+    if len(g["calls"]) != nf * nq or not isinstance(r, SFrame):
+        return False
+    conds = [Eq(r.index.len, n), Eq(r.values.shape[1], nf * nq)]
+    for pos, (fi, k, ev) in enumerate(g["calls"]):
+        if fi != pos // nq or k != pos % nq:
+            return False                          # feature-major, interval-minor order
+        a, b = g["ivs"][k].fn(0), g["ivs"][k].fn(1)
+        win = ev.arg(0)
+        if not isinstance(win, SArr) or win.ndim != 3 or ev.kwargs.get("axis") != -1:
+            return False
+        ln = ops.simp(Z(b) - Z(a))
+        R = g["outs"][(fi, k)]
+        conds.append(And(Eq(win.shape[0], n), Eq(win.shape[1], 1), Eq(win.shape[2], ln),
+                         ForAll(lambda i: ForAll(lambda t: Eq(win.fn(i, 0, t), X.fn(i, 0, ops.simp(Z(a) + Z(t)))), 0, ln, "t"), 0, n, "i"),
+                         ForAll(lambda i: Eq(r.values.fn(i, pos), R.fn(i, 0)), 0, n, "i")))
+    return And(*conds)
+
+
+contract(f"{EXT}::RandomIntervalFeatureExtractor.transform", "C14,C16,C12", cases=["1x1", "1x2", "2x1", "2x2", "1x2|noaxis", "2x1|noaxis"],
+         inputs=_rife_inputs,
+         raises=[("ValueError", lambda A: Z(A.X.shape[1]) > 1)],
+         ensures=[("column-per-(feature,interval)-holding-that-feature-of-that-window",
+                   lambda A, r: _rife_fallback_post(A, r) if A.self.ghost["noaxis"] else _rife_post(A, r), {"modular": False})],
+         frame=lambda A: [A.self, A.X],
+         notes=["1..2 feature functions x 1..2 fitted intervals (bound on the NUMBERS only); feature functions are abstract callables "
+                "accepting axis=-1 and returning an (n, 1) array, or (cases |noaxis) rejecting the keyword so that the np.apply_along_axis "
+                "fallback runs"])
